@@ -25,9 +25,9 @@ theorem crossCandsAux_spec (ss : List Sub) (i p q : Nat) (h : q ∈ crossCandsAu
       have : q - i = (q - (i + 1)) + 1 := by omega
       rw [this]; simpa using h3
 
-theorem crossPhase_spec (cfg : Cfg) (p : Nat) (s : LS) :
-    (crossPhase cfg p s).2.retry = s.retry ∧
-    ∀ b sub x, (crossPhase cfg p s).1 = .ok b sub x →
+theorem crossPhase_spec (pol : Policy) (cfg : Cfg) (p : Nat) (s : LS) :
+    (crossPhase pol cfg p s).2.retry = s.retry ∧
+    ∀ b sub x, (crossPhase pol cfg p s).1 = .ok b sub x →
       x = true ∧ cfg.cr > 0 ∧ sub ∈ crossCands cfg p := by
   unfold crossPhase
   split
@@ -51,12 +51,12 @@ theorem crossPhase_spec (cfg : Cfg) (p : Nat) (s : LS) :
         exact List.getElem_mem hi
       · simp
 
-theorem balance_spec (cfg : Cfg) (s : LS) :
-    s.retry ≤ (balance cfg s).2.retry ∧
-    ∀ b sub x, (balance cfg s).1 = .ok b sub x →
-      ((balance cfg s).2.retry : Int) ≤ cfg.rm + cfg.cr ∧
+theorem balance_spec (pol : Policy) (cfg : Cfg) (s : LS) :
+    s.retry ≤ (balance pol cfg s).2.retry ∧
+    ∀ b sub x, (balance pol cfg s).1 = .ok b sub x →
+      ((balance pol cfg s).2.retry : Int) ≤ cfg.rm + cfg.cr ∧
       (cfg.subs.getD (primary cfg) default).black = false ∧
-      (x = false → sub = primary cfg ∧ ((balance cfg s).2.retry : Int) ≤ cfg.rm) ∧
+      (x = false → sub = primary cfg ∧ ((balance pol cfg s).2.retry : Int) ≤ cfg.rm) ∧
       (x = true → cfg.cr > 0 ∧ sub ∈ crossCands cfg (primary cfg)) := by
   unfold balance
   split
@@ -77,13 +77,13 @@ theorem balance_spec (cfg : Cfg) (s : LS) :
           refine ⟨by dsimp only; omega, hbl', fun _ => ⟨h2.symm, by dsimp only; omega⟩, fun hx => ?_⟩
           rw [hx] at h3; cases h3
         · rename_i cur' _
-          have hs := crossPhase_spec cfg (primary cfg) { s with cur := cur', retry := cfg.rm.toNat }
+          have hs := crossPhase_spec pol cfg (primary cfg) { s with bs := cur', retry := cfg.rm.toNat }
           refine ⟨by rw [hs.1]; dsimp only; omega, ?_⟩
           intro b sub x h
           obtain ⟨hx, hcr, hm⟩ := hs.2 b sub x h
           refine ⟨by rw [hs.1]; dsimp only; omega, hbl', fun hf => ?_, fun _ => ⟨hcr, hm⟩⟩
           rw [hx] at hf; cases hf
-      · have hs := crossPhase_spec cfg (primary cfg) s
+      · have hs := crossPhase_spec pol cfg (primary cfg) s
         refine ⟨by rw [hs.1]; exact Nat.le_refl _, ?_⟩
         intro b sub x h
         obtain ⟨hx, hcr, hm⟩ := hs.2 b sub x h
@@ -101,8 +101,8 @@ theorem resendOK_cons (cfg : Cfg) (rq : ReqSpec) (b sub : Nat) (x : Bool) (snap 
   | nil => trivial
   | cons e' rest => exact ⟨h1, h2⟩
 
-theorem loop_resend (cfg : Cfg) (rq : ReqSpec) : ∀ (n : Nat) (s : LS) (last : Err),
-    ResendOK cfg rq (loop cfg rq n s last).evs := by
+theorem loop_resend (pol : Policy) (cfg : Cfg) (rq : ReqSpec) : ∀ (n : Nat) (s : LS) (last : Err),
+    ResendOK cfg rq (loop pol cfg rq n s last).evs := by
   intro n
   induction n with
   | zero => intro s last; simp [loop, ResendOK]
@@ -123,15 +123,15 @@ theorem loop_resend (cfg : Cfg) (rq : ReqSpec) : ∀ (n : Nat) (s : LS) (last : 
             exact resendOK_cons cfg rq _ _ _ _ _ _ (allowRetry_may cfg rq _ hal) (ih _ _)
           · trivial
 
-theorem loop_bound (cfg : Cfg) (rq : ReqSpec) : ∀ (n : Nat) (s : LS) (last : Err),
-    (rtCount (loop cfg rq n s last).evs : Int) ≤ max 0 (cfg.rm + cfg.cr + 1 - s.retry) ∧
-    rtCount (loop cfg rq n s last).evs ≤ n := by
+theorem loop_bound (pol : Policy) (cfg : Cfg) (rq : ReqSpec) : ∀ (n : Nat) (s : LS) (last : Err),
+    (rtCount (loop pol cfg rq n s last).evs : Int) ≤ max 0 (cfg.rm + cfg.cr + 1 - s.retry) ∧
+    rtCount (loop pol cfg rq n s last).evs ≤ n := by
   intro n
   induction n with
   | zero => intro s last; simp [loop, rtCount]; omega
   | succ n ih =>
     intro s last
-    have hb := balance_spec cfg s
+    have hb := balance_spec pol cfg s
     rw [loop]
     split
     · rename_i s1 heq
@@ -141,10 +141,10 @@ theorem loop_bound (cfg : Cfg) (rq : ReqSpec) : ∀ (n : Nat) (s : LS) (last : E
       dsimp only at this
       omega
     · simp [rtCount]; omega
-    · rename_i b sub x s1 heq
+    · rename_i b0 sub x s1 heq
       rw [heq] at hb
       dsimp only at hb
-      have hok := (hb.2 b sub x rfl).1
+      have hok := (hb.2 b0 sub x rfl).1
       dsimp only
       split
       · simp [rtCount]; omega
@@ -153,21 +153,25 @@ theorem loop_bound (cfg : Cfg) (rq : ReqSpec) : ∀ (n : Nat) (s : LS) (last : E
         · split
           · dsimp only
             simp only [rtCount]
-            have := ih ⟨s1.cur, upd (decTb s1.conn s1.tb) b 1, some b, s1.retry + 1,
-                         ecOf s1.ec (s1.script.headD Attempt.dflt).rt, s1.cross, s1.script.tail, s1.choices⟩
+            have := ih ⟨pol.note cfg s1.bs (target cfg (s1.script.headD Attempt.dflt).fwd b0)
+                           (s1.script.headD Attempt.dflt).rt,
+                         upd (decTb s1.conn s1.tb) (target cfg (s1.script.headD Attempt.dflt).fwd b0) 1,
+                         some (target cfg (s1.script.headD Attempt.dflt).fwd b0), s1.retry + 1,
+                         ecOf s1.ec (s1.script.headD Attempt.dflt).rt, s1.cross, s1.script.tail, s1.choices,
+                         b0 :: s1.picks⟩
                        (errOf (s1.script.headD Attempt.dflt).rt)
             dsimp only at this
             omega
           · simp [rtCount]; omega
 
-theorem loop_in_bound (cfg : Cfg) (rq : ReqSpec) : ∀ (n : Nat) (s : LS) (last : Err),
-    (inCount (loop cfg rq n s last).evs : Int) ≤ max 0 (cfg.rm + 1 - s.retry) := by
+theorem loop_in_bound (pol : Policy) (cfg : Cfg) (rq : ReqSpec) : ∀ (n : Nat) (s : LS) (last : Err),
+    (inCount (loop pol cfg rq n s last).evs : Int) ≤ max 0 (cfg.rm + 1 - s.retry) := by
   intro n
   induction n with
   | zero => intro s last; simp [loop, inCount]; omega
   | succ n ih =>
     intro s last
-    have hb := balance_spec cfg s
+    have hb := balance_spec pol cfg s
     rw [loop]
     split
     · rename_i s1 heq
@@ -177,10 +181,10 @@ theorem loop_in_bound (cfg : Cfg) (rq : ReqSpec) : ∀ (n : Nat) (s : LS) (last 
       dsimp only at this
       omega
     · simp [inCount]; omega
-    · rename_i b sub x s1 heq
+    · rename_i b0 sub x s1 heq
       rw [heq] at hb
       dsimp only at hb
-      have hin : x = false → (s1.retry : Int) ≤ cfg.rm := fun hx => ((hb.2 b sub x rfl).2.2.1 hx).2
+      have hin : x = false → (s1.retry : Int) ≤ cfg.rm := fun hx => ((hb.2 b0 sub x rfl).2.2.1 hx).2
       dsimp only
       split
       · simp [inCount]; omega
@@ -190,8 +194,12 @@ theorem loop_in_bound (cfg : Cfg) (rq : ReqSpec) : ∀ (n : Nat) (s : LS) (last 
           | false => have h' := hin rfl; simp [inCount]; omega
         · split
           · dsimp only
-            have := ih ⟨s1.cur, upd (decTb s1.conn s1.tb) b 1, some b, s1.retry + 1,
-                         ecOf s1.ec (s1.script.headD Attempt.dflt).rt, s1.cross, s1.script.tail, s1.choices⟩
+            have := ih ⟨pol.note cfg s1.bs (target cfg (s1.script.headD Attempt.dflt).fwd b0)
+                           (s1.script.headD Attempt.dflt).rt,
+                         upd (decTb s1.conn s1.tb) (target cfg (s1.script.headD Attempt.dflt).fwd b0) 1,
+                         some (target cfg (s1.script.headD Attempt.dflt).fwd b0), s1.retry + 1,
+                         ecOf s1.ec (s1.script.headD Attempt.dflt).rt, s1.cross, s1.script.tail, s1.choices,
+                         b0 :: s1.picks⟩
                        (errOf (s1.script.headD Attempt.dflt).rt)
             dsimp only at this
             cases x with
@@ -201,10 +209,10 @@ theorem loop_in_bound (cfg : Cfg) (rq : ReqSpec) : ∀ (n : Nat) (s : LS) (last 
             | true => simp [inCount]; omega
             | false => have h' := hin rfl; simp [inCount]; omega
 
-theorem subOK_of_balance (cfg : Cfg) (s : LS) (b sub : Nat) (x : Bool) (s1 : LS)
-    (heq : balance cfg s = (BalRes.ok b sub x, s1)) (snap : Nat → Int) (o : Rt) :
+theorem subOK_of_balance (pol : Policy) (cfg : Cfg) (s : LS) (b b0 sub : Nat) (x : Bool) (s1 : LS)
+    (heq : balance pol cfg s = (BalRes.ok b0 sub x, s1)) (snap : Nat → Int) (o : Rt) :
     SubOK cfg (.rt b sub x snap o) := by
-  have hb := (balance_spec cfg s).2 b sub x (by rw [heq])
+  have hb := (balance_spec pol cfg s).2 b0 sub x (by rw [heq])
   obtain ⟨_, hbl, hf, ht⟩ := hb
   refine ⟨fun hx => ?_, fun hx => ?_⟩
   · have := (hf hx).1; subst this; exact ⟨rfl, hbl⟩
@@ -214,8 +222,8 @@ theorem subOK_of_balance (cfg : Cfg) (s : LS) (b sub : Nat) (x : Bool) (s1 : LS)
     simp [crossOK] at h4
     exact ⟨h4.2, h4.1⟩
 
-theorem loop_sub (cfg : Cfg) (rq : ReqSpec) : ∀ (n : Nat) (s : LS) (last : Err),
-    ∀ e ∈ (loop cfg rq n s last).evs, SubOK cfg e := by
+theorem loop_sub (pol : Policy) (cfg : Cfg) (rq : ReqSpec) : ∀ (n : Nat) (s : LS) (last : Err),
+    ∀ e ∈ (loop pol cfg rq n s last).evs, SubOK cfg e := by
   intro n
   induction n with
   | zero => intro s last; simp [loop]
@@ -225,22 +233,22 @@ theorem loop_sub (cfg : Cfg) (rq : ReqSpec) : ∀ (n : Nat) (s : LS) (last : Err
     split
     · exact ih _ _
     · simp
-    · rename_i b sub x s1 heq
+    · rename_i b0 sub x s1 heq
       dsimp only
       split
       · intro e he; simp only [List.mem_singleton] at he; subst he; trivial
       · split
         · intro e he; simp only [List.mem_singleton] at he; subst he
-          exact subOK_of_balance cfg s b sub x s1 heq _ _
+          exact subOK_of_balance pol cfg s _ b0 sub x s1 heq _ _
         · split
           · intro e he
             dsimp only at he
             simp only [List.mem_cons] at he
             rcases he with he | he
-            · subst he; exact subOK_of_balance cfg s b sub x s1 heq _ _
+            · subst he; exact subOK_of_balance pol cfg s _ b0 sub x s1 heq _ _
             · exact ih _ _ e he
           · intro e he; simp only [List.mem_singleton] at he; subst he
-            exact subOK_of_balance cfg s b sub x s1 heq _ _
+            exact subOK_of_balance pol cfg s _ b0 sub x s1 heq _ _
 
 theorem resendOK_index (cfg : Cfg) (rq : ReqSpec) (l : List Ev) (h : ResendOK cfg rq l) :
     ∀ i, i + 1 < l.length → ∃ b sub x snap o, l[i]? = some (.rt b sub x snap o) ∧ MayResend cfg rq o := by
